@@ -1,6 +1,6 @@
 (* C09 — level_limit yields the quotient graph and preserves verdicts above the limit. *)
 From Coq Require Import List Bool NArith Lia.
-From PTA Require Import Names Graph Search Rule SpecRule Scan NamesProofs SearchProofs RuleProofs GraphProofs ScanProofs QuotientProofs.
+From PTA Require Import Names Graph Search Rule SpecRule Scan NamesProofs SearchProofs RuleProofs GraphProofs ScanProofs QuotientProofs LimitNestProofs.
 Import ListNotations.
 
 (* modules of the limited architecture = truncated names of the full one *)
@@ -124,3 +124,56 @@ Example C09_non_module_import :
   imps (build_graph N.eqb [[1]; [1;2]; [1;3]; [1;3;4]]%N [([1;3;4], [1;2;9])]%N (Some 1%nat)) = [] /\
   imps (build_graph N.eqb [[1]; [1;2]; [1;3]; [1;3;4]]%N [([1;3;4], [1;2;9])]%N None) = [].
 Proof. split; vm_compute; reflexivity. Qed.
+
+(* Level limits nest: the architecture limited at j is the quotient, under truncation at j, of the architecture limited
+   at any deeper k (so flattening an already flattened view is the direct flattening) ... *)
+Theorem C09_limits_nest_modules :
+  forall (comp : Type) (ceqb : comp -> comp -> bool), (forall x y, reflect (x = y) (ceqb x y)) ->
+  forall (j k : nat) mods imports a, (j <= k)%nat ->
+  (In a (build_nodes ceqb (Some j) mods imports) <->
+   exists n, In n (build_nodes ceqb (Some k) mods imports) /\ a = flatten (Some j) n).
+Proof. exact @nested_nodes. Qed.
+Print Assumptions C09_limits_nest_modules.
+
+Theorem C09_limits_nest_imports :
+  forall (comp : Type) (ceqb : comp -> comp -> bool), (forall x y, reflect (x = y) (ceqb x y)) ->
+  forall (j k : nat) mods imports, (j <= k)%nat ->
+  (forall a b, In (a, b) (imps (build_graph ceqb mods imports (Some j))) ->
+     exists x y, In (x, y) (imps (build_graph ceqb mods imports (Some k))) /\
+                 a = flatten (Some j) x /\ b = flatten (Some j) y) /\
+  (forall x y, In (x, y) (imps (build_graph ceqb mods imports (Some k))) ->
+     flatten (Some j) x <> flatten (Some j) y ->
+     childb ceqb (flatten (Some j) x) (flatten (Some j) y) = false ->
+     In (flatten (Some j) x, flatten (Some j) y) (imps (build_graph ceqb mods imports (Some j)))).
+Proof.
+  intros comp ceqb Hc j k mods imports Hjk. split.
+  - intros a b. exact (nested_imps_sound ceqb Hc j k mods imports a b Hjk).
+  - intros x y. exact (nested_imps_complete ceqb Hc j k mods imports x y Hjk).
+Qed.
+Print Assumptions C09_limits_nest_imports.
+
+(* ... and a limit that no module name exceeds is no limit: same modules, same imports *)
+Theorem C09_deep_limit_is_identity :
+  forall (comp : Type) (ceqb : comp -> comp -> bool), (forall x y, reflect (x = y) (ceqb x y)) ->
+  forall (k : nat) mods imports,
+  (forall n, In n (build_nodes ceqb None mods imports) -> (length n <= S k)%nat) ->
+  (forall a, In a (build_nodes ceqb (Some k) mods imports) <-> In a (build_nodes ceqb None mods imports)) /\
+  (forall a b, In (a, b) (imps (build_graph ceqb mods imports (Some k))) <->
+               In (a, b) (imps (build_graph ceqb mods imports None))).
+Proof.
+  intros comp ceqb Hc k mods imports Hs. split.
+  - intros a. exact (deep_limit_nodes ceqb Hc k mods imports a Hs).
+  - intros a b. exact (deep_limit_imps ceqb Hc k mods imports a b Hs).
+Qed.
+Print Assumptions C09_deep_limit_is_identity.
+
+(* non-vacuity: in the example project every name has at most 4 components, so limit 3 is the identity and limit 1 is
+   the quotient of limit 2 *)
+Example C09_nest_example :
+  (forall n, In n (build_nodes N.eqb None ex9_mods ex9_imps) -> (length n <= 4)%nat) /\
+  imps (build_graph N.eqb ex9_mods ex9_imps (Some 3%nat)) = imps (build_graph N.eqb ex9_mods ex9_imps None) /\
+  imps (build_graph N.eqb ex9_mods ex9_imps (Some 1%nat)) = [([1;2], [1;3]); ([1;3], [1;4]); ([1;4], [1;2])]%N.
+Proof.
+  split; [|split; vm_compute; reflexivity].
+  intros n H. vm_compute in H. repeat (destruct H as [<-|H]; [simpl; lia|]). destruct H.
+Qed.
